@@ -160,6 +160,72 @@ fn protocol<const SLOTS: usize, const G: usize, const OPS: usize>(t: &[u8], scri
     core::mem::forget(wl);
 }
 
+// ------------------------------------------------------------------ a full list blocks `link`
+
+/// Under Kani `Condvar::wait` stands for "this thread blocks": the path ends there (and a cover
+/// point witnesses that it is reached).  So a `link` on a list whose SLOTS slots are all
+/// occupied must never return; if it does, it has wrapped onto a slot that is still linked.
+#[cfg(kani)]
+fn wait_blocks<'a, T>(_: &Condvar, g: MutexGuard<'a, T>) -> std::sync::LockResult<MutexGuard<'a, T>> {
+    kani::cover!(true, "link on a full list reaches the wait");
+    kani::assume(false);
+    Ok(g)
+}
+
+fn full_blocks<const SLOTS: usize>(t: &[u8]) {
+    let mut t = Tape::new(t);
+    let wl: std::sync::Arc<WaitList<u8>> = std::sync::Arc::new(small_wait_list(SLOTS));
+    let unlink_some = t.bool();
+    let which = (t.u8() as usize) % SLOTS;
+    let mut guards: [Option<WaitGuard<'_, u8>>; SLOTS] = [const { None }; SLOTS];
+    let mut i = 0;
+    while i < SLOTS {
+        guards[i] = Some(wl.link(i as u8));
+        i += 1;
+    }
+    // optionally free a slot that is NOT the head: the list stays full (the head still blocks reuse)
+    if unlink_some && which != 0 {
+        if let Some(g) = guards[which].take() {
+            wl.unlink(g);
+        }
+    }
+    {
+        let st = wl.state.lock().unwrap();
+        assert!(st.head == 0 && st.tail == SLOTS as u64, "all slots handed out, head still linked");
+    }
+    #[cfg(kani)]
+    {
+        let g = wl.link(0xee);
+        core::mem::forget(g);
+        assert!(false, "link on a full list returned instead of blocking");
+    }
+    #[cfg(not(kani))]
+    {
+        let (tx, rx) = std::sync::mpsc::channel();
+        let w2 = std::sync::Arc::clone(&wl);
+        std::thread::spawn(move || {
+            let g = w2.link(0xee);
+            let _ = tx.send(());
+            core::mem::forget(g);
+        });
+        let returned = rx.recv_timeout(std::time::Duration::from_millis(150)).is_ok();
+        assert!(!returned, "link on a full list returned instead of blocking");
+    }
+    let mut i = 0;
+    while i < SLOTS {
+        core::mem::forget(guards[i].take());
+        i += 1;
+    }
+}
+harness!(
+    #[kani::stub(std::sync::Condvar::notify_one, noop_notify)]
+    #[kani::stub(std::sync::Condvar::wait, wait_blocks)]
+    full_blocks_s2, 2, |t| { full_blocks::<2>(t) });
+harness!(
+    #[kani::stub(std::sync::Condvar::notify_one, noop_notify)]
+    #[kani::stub(std::sync::Condvar::wait, wait_blocks)]
+    full_blocks_s3, 2, |t| { full_blocks::<3>(t) });
+
 // scripts: 0 link, 1 unlink(which), 2 notify_head, 3 iterate from guard `which`
 macro_rules! proto {
     ($name:ident, $s:expr, $g:expr, $o:expr, $script:expr) => {
@@ -173,4 +239,4 @@ proto!(proto_s3_llIUnl, 3, 3, 6, Some([0, 0, 3, 1, 2, 0]));
 proto!(proto_s2_lUlUlU, 2, 2, 6, Some([0, 1, 0, 1, 0, 1]));
 proto!(proto_s4_lllUlUl, 4, 3, 7, Some([0, 0, 0, 1, 0, 1, 0]));
 
-harness_list!(proto_s3_lllUUU, proto_s2_llUlUU, proto_s2_llUlIU, proto_s3_llIUnl, proto_s2_lUlUlU, proto_s4_lllUlUl);
+harness_list!(full_blocks_s2, full_blocks_s3, proto_s3_lllUUU, proto_s2_llUlUU, proto_s2_llUlIU, proto_s3_llIUnl, proto_s2_lUlUlU, proto_s4_lllUlUl);
